@@ -4,6 +4,9 @@ from . import rtlib
 from . import clientlib as L
 
 PROP = "C08"
+KNOWN_HITS = {}
+# the witness of the listed finding: `* OK [BADCHARSET ({2}CRLF <ff fe>)] xCRLF`
+WITNESS = "2a204f4b205b4241444348415253455420287b327d0d0afffe295d20780d0a"
 PROPFILE = "Properties/C08.v"
 
 
@@ -19,9 +22,17 @@ def search(tier, seed):
         if rows[0][1] != exp:
             return total, "corpus case %s:\nparsed   %s\nexpected %s" % (C.show_input(h), rows[0][1][:400], exp[:400]), samples, positions
     rows = C.parse_stream("literal", seed, n)
+    known, _ = C.known_findings()
+    known_classes = [k.split()[1] for k in known if k.startswith("property=C08 ")]
     for h, impl, verdict in rows:
         total += 1
         positions += 1
+        if verdict.startswith("KNOWN "):
+            cls = verdict.split()[1]
+            if cls in known_classes:
+                KNOWN_HITS[cls] = KNOWN_HITS.get(cls, 0) + 1
+                continue
+            verdict = "BAD (class %s is not a listed finding)" % cls
         if verdict != "OK":
             return total, ("replacing the content of a literal changed something else than that field's value:\ninput %s\nresult %s\n%s") % (
                 C.show_input(h, 400), impl[:400], verdict[:600]), samples, positions
@@ -39,6 +50,14 @@ def search(tier, seed):
 
 
 def run(tier, seed, t0):
+    # listed finding: reproduce it on the implementation; it is reported as KNOWN-FINDING, never as a violation
+    known, _ = C.known_findings()
+    for k in known:
+        if k.startswith("property=C08 resp-code-literal-fallback"):
+            C.build_harness()
+            r = C.parse_stream("corpus", seed, 0, stdin=WITNESS + "\n")[0][1]
+            if r.startswith("OK 23 ") and "code=None" in r:
+                print("KNOWN-FINDING: property=C08 " + k[len("property=C08 "):])
     rtlib.generic_run(PROP, PROPFILE, tier, seed, t0, search,
         rule="search oracle (implementation only): every generated response is printed with all strings as literals; for up to 4 literal positions per response the content is first replaced by a unique marker (positions whose parse does not show the marker exactly once, or that constrain their content, are skipped), then by adversarial contents (empty, `)CRLF A0001 OK doneCRLF`, `{5}CRLF`, `{99999}CRLF`, quotes, backslashes, unbalanced parentheses, CR, LF, `* 1 EXISTSCRLF`, NIL, brackets, `+ goCRLF`, all bytes 1..127, 66 KB of `)CRLF* BYECRLF`, random bytes 1..255) with the header rewritten; the result must be the marker parse with exactly that field replaced, the consumed length must be the new length, and a further response appended must parse exactly as it does alone. Text fields (decided by the implementation's answer to a binary marker) are not asked to hold non-UTF-8 bytes. Then the C04 framed streams (literal look-alikes at read boundaries) through the real codec. distinct = literal positions exercised.",
         what="literal content leaks into the rest of the parse",
